@@ -185,26 +185,31 @@ class Check:
             self.ctx.small = sorted(self.ctx.sites) + [c for c in self.ctx.small if c not in self.ctx.sites][:10]
 
     def group_configs(self) -> None:
-        """Small group configs over corpus contracts (DESIGN §2.4)."""
+        """Candidate contracts for group configs (DESIGN §2.4): a `group` operation draws one to
+        three of them, with a contract type each, so that configs with several different contracts
+        (an application next to a logic-sig) occur."""
         cands = [
             c
             for c in self.ctx.small
-            if len(self.ctx.paths.get(c, [])) > 2 and not self.ctx.info[c]["outside"]
+            if not self.ctx.info[c]["outside"] and self.ctx.info[c]["parse"] == "ok"
         ]
-        cands = sorted(cands)[:: max(1, len(cands) // 8)][:8] if cands else []
-        cfgs = []
-        for i in range(0, len(cands) - 1, 2):
-            cs = []
-            for j, cid in enumerate(cands[i : i + 2]):
-                src = open(os.path.join(VERIF, "corpus", "teal", cid + ".teal"), encoding="utf-8").read()
-                version = 6
-                for line in src.splitlines():
-                    if line.startswith("#pragma version"):
-                        version = int(line.split()[2])
-                        break
-                cs.append({"name": "K%d" % j, "cid": cid, "type": "ApprovalProgram", "version": version})
-            cfgs.append({"contracts": cs})
-        self.ctx.group_cfgs = cfgs
+        more = [
+            c
+            for c in self.ctx.contracts
+            if c not in cands and self.ctx.info[c]["lines"] <= 120 and len(self.ctx.paths.get(c, [])) > 1
+        ]
+        key = lambda c: hashlib.sha256(f"group:{self.seed}:{c}".encode()).hexdigest()  # noqa: E731
+        cands = sorted(cands, key=key)[:14] + sorted(more, key=key)[: (26 if self.tier == "quick" else 120)]
+        out = []
+        for cid in cands:
+            src = open(os.path.join(VERIF, "corpus", "teal", cid + ".teal"), encoding="utf-8").read()
+            version = 1
+            for line in src.splitlines():
+                if line.startswith("#pragma version"):
+                    version = int(line.split()[2])
+                    break
+            out.append({"cid": cid, "version": version})
+        self.ctx.group_cfgs = out
 
     # ------------------------------------------------------------------ running sessions
     def ensure_refs(self, specs: List[Dict[str, Any]]) -> None:
@@ -583,7 +588,7 @@ class Check:
             "harness_problems": self.harness_problems[:10],
             "exhaustive": False,
         }
-        for k in ("sweep_pairwise", "sweep_fault_sites", "sweep_all_paths", "sweep_detector_abort"):
+        for k in ("sweep_pairwise", "sweep_fault_sites", "sweep_all_paths", "sweep_detector_abort", "sweep_build_abort"):
             if k in st:
                 cov[k] = st[k]
         if extra_cov:
@@ -738,9 +743,11 @@ def run_c12(chk: Check) -> None:
             chk.run_batch(specs, timeout)
             i += len(specs)
             log(f"[c12] faulty={faulty} sessions={i}/{n} compared_ops={chk.stats['compared_ops']} t={time.time()-chk.t0:.0f}s")
-    if not quick:
-        from sim import sweeps  # pylint: disable=import-outside-toplevel
+    from sim import sweeps  # pylint: disable=import-outside-toplevel
 
+    if len(chk.violations) < 5:
+        sweeps.build_abort_sweep(chk, 4 if quick else 16, 16 if quick else 60)
+    if not quick:
         sweeps.all_paths_sweep(chk)
     paths_total = sum(len(v) for v in chk.ctx.paths.values())
     chk.write_evidence(
